@@ -92,6 +92,21 @@ Theorem C20_ph : forall (R : cring) (e : R) b b', (b < 2)%nat -> (b' < 2)%nat ->
   lamp (g_unitary (g_ph e)) 2 1 [] b b' = M_diag k1 e b' b.
 Proof. exact ph_logical. Qed.
 Print Assumptions C20_ph.
+(* the templates fitted to one-qubit gates outside the catalog (generic conversion): diag(e,1), diag(e1,e2); a single
+   phase shifter matches diag(e1,e2) up to a factor only when it carries the relative phase *)
+Theorem C20_template_lower_phase : forall (R : cring) (e : R) b b', (b < 2)%nat -> (b' < 2)%nat ->
+  lamp (g_unitary (g_phase_lower e)) 2 1 [] b b' = M_diag e k1 b' b.
+Proof. exact phase_lower_logical. Qed.
+Print Assumptions C20_template_lower_phase.
+Theorem C20_template_two_phases : forall (R : cring) (e1 e2 : R) b b', (b < 2)%nat -> (b' < 2)%nat ->
+  lamp (g_unitary (g_2phase e1 e2)) 2 1 [] b b' = M_diag e1 e2 b' b.
+Proof. exact two_phase_logical. Qed.
+Print Assumptions C20_template_two_phases.
+Theorem C20_single_phase_needs_relative_phase : forall (R : cring) (lam e e1 e2 : R),
+  (forall b b', (b < 2)%nat -> (b' < 2)%nat -> kmul lam (lamp (g_unitary (g_ph e)) 2 1 [] b b') = M_diag e1 e2 b' b) ->
+  lam = e1 /\ kmul e1 e = e2.
+Proof. exact single_phase_needs_relative_phase. Qed.
+Print Assumptions C20_single_phase_needs_relative_phase.
 (* every real angle (complex numbers over Coq's reals) *)
 Theorem C20_rx_real : forall (theta : R) b b', (b < 2)%nat -> (b' < 2)%nat ->
   lamp (g_unitary (g_rx (R:=CX) cI (creal (cos (theta / 2))) (creal (sin (theta / 2))))) 2 1 [] b b'
